@@ -31,7 +31,7 @@ sim::Plan generate(const std::string&, uint64_t subseed, const sim::Tier& tier) 
   for (int i = 0; i < nops; ++i) {
     long k = rng.below(w_ins + w_add + w_zero + w_swap + w_rm);
     if (k < w_ins) { if (rng.chance(1, 4)) p.add(0, "ins_dup", {(long)rng.below(64)}); else if (rng.chance(1, 5)) p.add(0, "ins_at", {(long)rng.below(1 << 30), (long)rng.below(64)}); else p.add(0, "ins", {(long)rng.below(1 << 30)}); }
-    else if (k < w_ins + w_add) { long z = rng.below(3); p.add(1, z == 0 ? "add" : z == 1 ? "mta" : "msa", {(long)rng.below(64), (long)rng.below(64), coefficient(), (long)rng.below(1 << 30)}); }
+    else if (k < w_ins + w_add) { long z = rng.below(3); p.add(1, z == 0 ? "add" : z == 1 ? "mta" : "msa", {(long)rng.below(64), (long)rng.below(64), coefficient(), (long)rng.below(1 << 30), (long)rng.below(64)}); }
     else if (k < w_ins + w_add + w_zero) { if (rng.chance(3, 4)) p.add(1, "zero_entry", {(long)rng.below(64), (long)rng.below(64), (long)rng.below(2)}); else p.add(1, "zero_col", {(long)rng.below(64)}); }
     else if (k < w_ins + w_add + w_zero + w_swap) { if (rng.chance(1, 2)) p.add(2, "swap_rows", {(long)rng.below(64), (long)rng.below(64)}); else p.add(2, "swap_cols", {(long)rng.below(64), (long)rng.below(64)}); }
     else { long z = rng.below(3); if (z == 0) p.add(2, "rm_last"); else if (z == 1) p.add(2, "rm_col", {(long)rng.below(64)}); else p.add(2, "erase_row", {(long)rng.below(64)}); }
